@@ -10,6 +10,7 @@
 (*   ks/sk  : the string constants / the VM's parallel string table        *)
 (*   pnup   : NumUpvalues of every nested prototype                        *)
 (*   ndbgup : number of upvalue names (only used to label a wrapped count) *)
+(*   ls/le  : scope of every declared local: StartPc <= pc < EndPc          *)
 (*                                                                         *)
 (* The instruction words are decoded HERE (Lua 5.1 layout: opcode 6 bits,  *)
 (* A 8 bits, C 9 bits, B 9 bits; Bx = C:B 18 bits; sBx = Bx - 131071).     *)
@@ -280,6 +281,19 @@ InstrViol(p, hd, pc) ==
       [] o = OP_NOP -> {}
       [] OTHER -> {"opcode:invalid"}
 
+(* ---- locals in scope --------------------------------------------------- *)
+(* Local variables live in the lowest registers, one each (temporaries sit   *)
+(* above them): k locals in scope at some pc need R(0)..R(k-1), so k must    *)
+(* not exceed the declared register count - whatever the (possibly wrapped)  *)
+(* operand fields say.  A local is in scope at pc iff StartPc <= pc < EndPc   *)
+(* (LFunction.LocalName: the n-th such local is the one in R(n-1)).  The      *)
+(* overlap of scopes is largest at a scope start.                            *)
+LiveAt(p, pc) == Cardinality({j \in 1..Len(p.ls) : p.ls[j] <= pc /\ pc < p.le[j]})
+MaxLiveLocals(p) ==
+    LET starts == {p.ls[i] : i \in {k \in 1..Len(p.ls) : p.ls[k] < p.le[k]}}
+        counts == {LiveAt(p, s) : s \in starts} \cup {0}
+    IN CHOOSE m \in counts : \A x \in counts : x <= m
+
 (* ---- the rules of the prototype as a whole ----------------------------- *)
 ProtoViol(p, hd) ==
     LET n == NW(p) IN
@@ -290,6 +304,7 @@ ProtoViol(p, hd) ==
     (IF n = 0 THEN {"code:empty"}
      ELSE (IF hd.nxt # n THEN {"group:last-group-overruns-code"} ELSE {}) \cup
           (IF ~(hd.h[n] /\ Op(p, n - 1) = OP_RETURN) THEN {"code:last-instruction-not-RETURN"} ELSE {})) \cup
+    (IF MaxLiveLocals(p) > p.nreg THEN {"locals:more-live-locals-than-NumUsedRegisters"} ELSE {}) \cup
     (IF p.nline # n THEN {"line-table:length"} ELSE {}) \cup
     (IF Len(p.sk) # NK(p) \/ Len(p.ks) # NK(p) THEN {"string-constants:length"}
      ELSE IF \E i \in 1..NK(p) : p.sk[i] # p.ks[i] THEN {"string-constants:content"} ELSE {}) \cup
